@@ -54,3 +54,16 @@ Theorem C01_trailing_zeros_of_xor_counts_equal_bytes : forall get a b,
   (x <> 0 -> Z.shiftr (ctz64 x) 3 = eq_run get 8 a b /\ eq_run get 8 a b < 8).
 Proof. exact ctz_xor_eq_run. Qed.
 Print Assumptions C01_trailing_zeros_of_xor_counts_equal_bytes.
+
+(* the three-probe search of the translated main loop (candidates at si, si+1, si+2 through c.get / c.put,
+   the panic guard of src[ref:], the window test, the 4-byte comparison, the skip step) is ONE step of the
+   model's match finder (pstep): SPanic <-> a run-time panic, SFound p r tb' <-> the continuation entered with
+   si = p, offset = p - r and the arrays related to tb', SSkip <-> `continue` with the model's next position
+   (search_post); for any state related to a model table tb by table_rel. *)
+From LZ4V Require Import GenCompressBodySearch.
+Theorem C01_translated_search_step :
+  forall (src ssp : list Z) (dl dsp : Z) (get : Z -> Z),
+    (forall i : Z, 0 <= i < zlen src -> get i = znth src i) -> zlen src < 2 ^ 61 ->
+    search_stmt src ssp dl dsp get.
+Proof. exact search_exec. Qed.
+Print Assumptions C01_translated_search_step.
